@@ -90,7 +90,7 @@ def replay_exact(cfg, steps, ek, salt):
     kind = cfg["k"] + ("+misguided" if cfg["mis"] else "")
     try: L, _ = make(cfg)
     except Exception as e: return ("%s:construct-raises" % kind, "constructing the learner raised %s: %s" % (type(e).__name__, e))
-    lastp = 0.5
+    lastp = 0.5; offer = []
     for n, step in enumerate(steps):
         ctxt = CONTEXTS[(salt + n) % len(CONTEXTS)]
         where = "call #%d %s" % (n + 1, {k: v for k, v in step.items() if k != "out"})
@@ -101,9 +101,9 @@ def replay_exact(cfg, steps, ek, salt):
             continue
         actions = [enc(ek, i) for i in step["acts"]]
         try:
-            s1 = [budget(L.score, ctxt, list(actions), a) for a in actions]
-            pred = budget(L.predict, ctxt, list(actions))
-            s2 = [budget(L.score, ctxt, list(actions), a) for a in actions]
+            s1 = [budget(L.score, ctxt, _into(offer, actions), a) for a in actions]
+            pred = budget(L.predict, ctxt, _into(offer, actions))
+            s2 = [budget(L.score, ctxt, _into(offer, actions), a) for a in actions]
         except Hang: return ("%s:predict-hangs" % kind, "%s did not return within %ss" % (where, CALL_BUDGET))
         except Exception as e: return ("%s:predict-raises" % kind, "%s: predict / score raised %s: %s" % (where, type(e).__name__, e))
         try: a, p = pred[0], pred[1]
@@ -137,6 +137,13 @@ def sv(x):
     return dict(sg=(x > 0) - (x < 0), v=int(round(abs(x) * 1e9)))
 
 
+def _into(offer, actions):
+    """the caller keeps ONE list object for the offered actions and refills it in place every round (an environment that
+    edits its action list rather than building a new one): what a learner is offered is the list's content at the call"""
+    offer[:] = actions
+    return offer
+
+
 def outcome(fn, *a, **k):
     try: return "ok", budget(fn, *a, **k)
     except Hang: return "hang", None
@@ -145,7 +152,7 @@ def outcome(fn, *a, **k):
 
 def record_exact(cfg, rounds, ek):
     """rounds: ('predict', acts) | ('learn', a, r2, reward, prob).  -> events, note on the first failed call"""
-    L, _ = make(cfg); evs = []; note = None
+    L, _ = make(cfg); evs = []; note = None; offer = []
     for n, rd in enumerate(rounds):
         ctxt = CONTEXTS[n % len(CONTEXTS)]
         if rd[0] == "learn":
@@ -155,9 +162,9 @@ def record_exact(cfg, rounds, ek):
             continue
         actions = [enc(ek, i) for i in rd[1]]
         def call():
-            s1 = [L.score(ctxt, list(actions), a) for a in actions]
-            pred = L.predict(ctxt, list(actions))
-            s2 = [L.score(ctxt, list(actions), a) for a in actions]
+            s1 = [L.score(ctxt, _into(offer, actions), a) for a in actions]
+            pred = L.predict(ctxt, _into(offer, actions))
+            s2 = [L.score(ctxt, _into(offer, actions), a) for a in actions]
             return s1, pred, s2
         res, out = outcome(call)
         if res != "ok":
@@ -173,11 +180,11 @@ def record_exact(cfg, rounds, ek):
 def record_corral(cfg, rounds, ek):
     """rounds: (acts, a, reward, pk) with pk = 'own' | 'score' | float.  One round = predict, score of every offered action,
     learn (with the info of that predict).  -> events, note, smallest learn probability used"""
-    L, core = make(cfg); evs = []; note = None; minp = 1.0
+    L, core = make(cfg); evs = []; note = None; minp = 1.0; offer = []
     for n, (acts, aid, reward, pk) in enumerate(rounds):
         ctxt = CONTEXTS[n % len(CONTEXTS)]
         actions = [enc(ek, i) for i in acts]
-        res, pred = outcome(L.predict, ctxt, list(actions))
+        res, pred = outcome(L.predict, ctxt, _into(offer, actions))
         if res != "ok":
             evs.append(dict(op="cpredict", acts=acts, res=res)); note = "round %d predict -> %s %s" % (n + 1, res, pred); break
         try: a, p, info = pred
@@ -187,13 +194,13 @@ def record_corral(cfg, rounds, ek):
         evs.append(dict(op="cpredict", acts=acts, bacts=bacts, ret=position(actions, a), p=sv(p), res="ok", raw=repr(p)))
         bad = False
         for j, act in enumerate(actions):
-            res, val = outcome(L.score, ctxt, list(actions), act)
+            res, val = outcome(L.score, ctxt, _into(offer, actions), act)
             evs.append(dict(op="cscore", acts=acts, a=j + 1, val=sv(val) if res == "ok" else None, res=res, raw=repr(val)))
             if res != "ok": note = "round %d score(action #%d) -> %s %s" % (n + 1, j + 1, res, val); bad = True; break
         if bad: break
         la, lp = a, p
         if pk == "score":
-            res, val = outcome(L.score, ctxt, list(actions), actions[aid - 1])
+            res, val = outcome(L.score, ctxt, _into(offer, actions), actions[aid - 1])
             evs.append(dict(op="cscore", acts=acts, a=aid, val=sv(val) if res == "ok" else None, res=res, raw=repr(val)))
             if res != "ok": note = "round %d score -> %s %s" % (n + 1, res, val); break
             if isinstance(val, (int, float)) and val > 0: la, lp = actions[aid - 1], val
